@@ -449,7 +449,7 @@ def repo_corpus_cases():
                 out.append(("file", os.path.join(d, fn)))
     for x in out:
         if isinstance(x, tuple):
-            yield {"k": "file", "s": "R", "path": x[1], "mode": "exec", "opt": 0}
+            yield {"k": "file", "s": "R", "path": "repo:" + os.path.relpath(x[1], REPO), "mode": "exec", "opt": 0}
         else:
             yield {"k": "src", "s": "R", "src": x, "mode": "exec", "opt": 0}
 
@@ -535,8 +535,11 @@ def case_source(case):
     if k == "src":
         return case["src"], "<verif>"
     if k == "file":
-        with open(case["path"], "rb") as f:
-            return f.read(), case["path"]
+        path = case["path"]
+        if path.startswith("repo:"):
+            path = os.path.join(REPO, path[5:])
+        with open(path, "rb") as f:
+            return f.read(), path
     if k == "feat":
         return FEAT[case["fam"]](case["n"]), "<verif>"
     if k == "jump":
